@@ -82,6 +82,7 @@ type op struct {
 var (
 	idA, idB   *gen.Identity
 	edPub      ed25519.PublicKey
+	edPriv     ed25519.PrivateKey
 	edPubSpare ed25519.PublicKey // same key, backing array with spare capacity
 	fixedDate  = time.Unix(1600000000, 0)
 )
@@ -396,6 +397,35 @@ func ops() []op {
 			return err
 		}})
 	}
+	// signing into a fresh integrity block with an attribute map the caller keeps (and hands to other signing calls, in
+	// other goroutines too): the map is an input - read, recorded, never written. One map carries the public key as
+	// GenerateSignatureAttributesWithPublicKey would, the other only the caller's own attributes.
+	for _, withKey := range []bool{true, false} {
+		withKey := withKey
+		out = append(out, op{fmt.Sprintf("IntegrityBlockSigner.SignAndAddNewSignature/caller-kept attributes (key attribute: %v)", withKey), func(o *mon.Rand) any {
+			m := integrityblock.SignatureAttributesMap{}
+			ps := fixedPairs("attr", 3)
+			if withKey {
+				ps = append(ps, pair{integrityblock.Ed25519publicKeyAttributeName, string(edPub)})
+			}
+			for _, i := range o.Perm(len(ps)) {
+				m[ps[i].k] = []byte(ps[i].v)
+			}
+			return m
+		}, func(in any, w io.Writer) error {
+			ib := &integrityblock.IntegrityBlock{Magic: integrityblock.IntegrityBlockMagic, Version: integrityblock.VersionB1, SignatureStack: []*integrityblock.IntegritySignature{}}
+			ibs := &integrityblock.IntegrityBlockSigner{SigningStrategy: integrityblock.NewParsedEd25519KeySigningStrategy(edPriv), WebBundleHash: bytes.Repeat([]byte{9}, 64), IntegrityBlock: ib}
+			if err := ibs.SignAndAddNewSignature(edPub, in.(integrityblock.SignatureAttributesMap)); err != nil {
+				return err
+			}
+			b, err := ib.CborBytes()
+			if err != nil {
+				return err
+			}
+			_, err = w.Write(b)
+			return err
+		}})
+	}
 	for _, n := range []int{3, 9, 70} {
 		n := n
 		out = append(out, op{fmt.Sprintf("ParameterisedList.String/%d params", n), func(o *mon.Rand) any {
@@ -554,7 +584,7 @@ func run(r *mon.Run) {
 	g0 := mon.NewRand(11, "c18-ids", 0)
 	idA = gen.NewIdentity(g0, gen.Curves[0], "example.com", 2)
 	idB = gen.NewIdentity(g0, gen.Curves[1], "b.example", 1)
-	edPub, _ = gen.EdKey(g0)
+	edPub, edPriv = gen.EdKey(g0)
 	spare := make([]byte, 32, 64)
 	copy(spare, edPub)
 	edPubSpare = ed25519.PublicKey(spare)
